@@ -400,6 +400,10 @@ pub fn judge_fault_free(plan: &ClientPlan, run: &ClientRun) -> Judged {
                 let ledger_token = o.ledger.get(&receipt).map(|l| l.token.clone());
                 if p.get_bcd(0x87) != Some(receipt as u64) {
                     j.fail("C07", "reversal_receipt", name, format!("{name}({token:?}) acts on receipt {:?} but the terminal issued {receipt} for that token", p.get_bcd(0x87)));
+                    if is_commit {
+                        // "... against the receipt number ... of that reservation" is C08's wording, too
+                        j.fail("C08", "commit_fields", "commit/receipt", format!("PartialReversal {} must name receipt {receipt} (BCD), the one the terminal issued for this reservation", crate::conn::hex(&reqs[0].frame)));
+                    }
                 } else if ledger_token != cp437(token) {
                     j.fail("C07", "reversal_receipt", name, format!("receipt {receipt} belongs to reference {:?} in the terminal's ledger, not to {token:?}", ledger_token));
                 }
